@@ -6,18 +6,20 @@
 (*           completion, stop/start, connect/disconnect), from every       *)
 (*           initial torrent state.  ASIS = FALSE is the design (Inv must  *)
 (*           hold); ASIS = TRUE is today's replay (TLC exports the lead).  *)
+(*           AFPARK = TRUE is the variant whose Choke handler parks an      *)
+(*           allowed-fast download (MC_PeerInput_afpark exports the lead).  *)
 (*  (MC_PeerInputGen extends this module with the generator GenSpec.)      *)
 (*  Verdicts the class alphabet with the design verdicts (printed once by   *)
 (*           MC_PeerInputGen; the driver must know the same class names).  *)
 (***************************************************************************)
 EXTENDS PeerInput, Json
-CONSTANTS N, NPE, K, ASIS, ALPHA, MAXLEN, GUARD
+CONSTANTS N, NPE, K, ASIS, ALPHA, MAXLEN, GUARD, AFPARK
 
 VARIABLES nmsg, h
 
 mvars == <<vars, nmsg, h>>
 
-MCfg == [n |-> N, npe |-> NPE, maxmsg |-> 65536, asis |-> ASIS, guard |-> GUARD]
+MCfg == [n |-> N, npe |-> NPE, maxmsg |-> 65536, asis |-> ASIS, guard |-> GUARD, afpark |-> AFPARK]
 
 \* a reduced alphabet: one representative per behaviour class of the model (plus all queueable ones)
 Reduced == Queueable \cup {"keepalive", "oversize.4g", "trunc.have", "wronglen.have9", "ext.unknown",
@@ -32,6 +34,8 @@ PexReps == {"ext.pex.len.added.8", "ext.pex.len.added.12", "ext.pex.len.dropped.
 ASSUME PexReps \subseteq PexFam
 Alpha == CASE ALPHA = "full" -> Core \cup PexReps \cup {"mut:flip:3:have.in0"}
            [] ALPHA = "race" -> {"unchoke", "choke", "have.in0", "bitfield.full", "interested", "piece.unreq", "have.oob"}
+           \* allowed-fast downloads: grant, source, choke / unchoke, a block of the running download, a closing message
+           [] ALPHA = "af" -> {"allowedfast.all", "bitfield.full", "unchoke", "choke", "piece.alljunk", "have.oob"}
            [] OTHER -> Reduced
 
 MCInit == /\ \E st \in {"meta", "alloc", "verify", "down", "seed"} : InitWith(MCfg, st)
